@@ -70,6 +70,7 @@ func VerifC19Negotiation() {
 		}
 	}
 	got := vFeed(conn, ":srv CAP * LS :"+strings.Join(advList, " "))
+	vObserve("after-ls", strings.Join(got, "\x00"))
 	for i := range uni {
 		vAssert(conn.SupportsCapability(uni[i]) == adv[i], "supports-iff-advertised")
 	}
